@@ -135,18 +135,25 @@ func runProperty(prop, tier string) int {
 		fatal("loading /repo with harness overlays failed (this is a machinery/build problem, not a verdict):\n%v", err)
 	}
 	findings := readFindings()
-	var rb *replayBuild
+	base := l
+	var lin *loaded // program with the in-package harnesses, loaded on demand
+	var linErr error
+	var rbBase, rbIn *replayBuild
 	getRB := func() *replayBuild {
-		if rb == nil {
+		p := &rbBase
+		if l.inpkg {
+			p = &rbIn
+		}
+		if *p == nil {
 			var err error
-			rb, err = buildReplay(l)
+			*p, err = buildReplay(l)
 			if err != nil {
 				fatal("building the native replay binary failed: %v", err)
 			}
 		}
-		return rb
+		return *p
 	}
-	defer func() { rb.cleanup() }()
+	defer func() { rbBase.cleanup(); rbIn.cleanup() }()
 
 	os.MkdirAll(filepath.Join(verifDir(), "replays"), 0o755)
 	var hev []*harnessEvidence
@@ -159,6 +166,18 @@ func runProperty(prop, tier string) int {
 	for _, h := range pc.Harnesses {
 		ev := &harnessEvidence{Fn: h.Fn, What: h.What, Bounds: h.Bounds, Abandoned: map[string]int{}, Candidates: map[string]int{}}
 		hev = append(hev, ev)
+		l = base
+		if h.Inpkg {
+			if lin == nil && linErr == nil {
+				lin, linErr = loadInpkg()
+			}
+			if linErr != nil {
+				ev.Skipped = "in-package anchor missing, harness skipped: " + firstLine(linErr.Error())
+				fmt.Printf("SKIPPED %s: %s\n", h.Fn, linErr.Error())
+				continue
+			}
+			l = lin
+		}
 		found := false
 		for _, n := range l.fnNames {
 			if n == h.Fn {
@@ -167,9 +186,6 @@ func runProperty(prop, tier string) int {
 		}
 		if !found {
 			ev.Skipped = "harness not loaded"
-			if l.skipped != "" {
-				ev.Skipped = "in-package anchor missing, harness skipped: " + firstLine(l.skipped)
-			}
 			fmt.Printf("SKIPPED %s: %s\n", h.Fn, ev.Skipped)
 			continue
 		}
